@@ -845,6 +845,12 @@ def t2_real_specials(ctx: Ctx):
                     if want == 'finite':
                         ctx.check(got is None or op == 'div', REAL, st or m, q, row + ' -> exact arithmetic',
                                   f'finite operands are answered with a special value {got}')
+                        if op == 'add' and 'zero' in (x, y):
+                            # a zero operand is not a shortcut: the sum of zeros of unlike sign is +0, which neither operand
+                            # handed back as it is can say (x + 0 -> x keeps the -0 of x)
+                            handed = kind == 'return' and isinstance(val, Opaque) and isinstance(val.node, ast.Name) and val.node.id in ps
+                            ctx.check(not handed, REAL, st or m, q, row + ' is computed, not answered with an operand as it is',
+                                      f'returns `{norm(val.node) if handed else ""}` unchanged: (-0) + (+0) is -0 under REAL, and 1 / (x - x) is -inf for x = -0.0')
                         continue
                     if want == 'nan':
                         ctx.check(got == 'nan', REAL, st or m, q, row + ' -> NaN', f'source yields {got or val!r}; IEEE 754 section 7.2: invalid operation gives NaN')
@@ -1097,7 +1103,17 @@ def f3_round_params(ctx: Ctx):
             isinstance(s, ast.FunctionDef) and s.name == '__init__' and 'num_randbits' in [a.arg for a in s.args.args + s.args.kwonlyargs]
             for s in c.body)
         if not uses_rb:
-            # non-stochastic families: constant answer or delegation
+            # non-stochastic families: constant answer or delegation.  A constant answer has to be the precision the
+            # family's own rounding works at (the engines compute p + 2 round-to-odd digits for it: one digit short and
+            # the half digit and the sticky digit coincide, so every inexact result looks like a tie)
+            rets = [s for s in walk_no_nested(fn) if isinstance(s, ast.Return)]
+            ra = own_method(c, '_round_at')
+            if len(rets) == 1 and isinstance(rets[0].value, ast.Tuple) and isinstance(rets[0].value.elts[0], ast.Constant) and ra is not None:
+                said = rets[0].value.elts[0].value
+                used = [k.args[0].value for k in calls_in(ra) if (call_name(k) or '').endswith('MPFloatContext') and k.args and isinstance(k.args[0], ast.Constant)]
+                ctx.check(len(used) == 1 and said == used[0], rel, rets[0], q, f'the precision reported to the engines ({said}) is the one {cname}._round_at rounds at ({used[0] if used else "?"})',
+                          f'round_params says {said} digit(s), the rounding works at {used}: exp2(0.1) under a nearest mode of a power-of-two format gives 2.0 instead of 1.0')
+                continue
             ctx.ok(rel, fn, q, 'no random bits in this family', nontrivial=False)
             continue
         n += 1
